@@ -334,6 +334,9 @@ func c15Apply(w hx.World, kinds []string) hx.World {
 	}
 	hostileName := func(id string) string { return hx.LinkFileName(s0.Name, id) }
 	for _, k := range kinds {
+		if lay.Keys == nil && k != "keys-null" {
+			lay.Keys = hx.MKeys{}
+		}
 		switch k {
 		case "empty-rule-step":
 			s0.ExpMat = append([][]string{{}}, s0.ExpMat...)
@@ -403,7 +406,9 @@ func c15Apply(w hx.World, kinds []string) hx.World {
 		case "name-dotdot":
 			renameStep(&lay, &links, 0, "..")
 		case "duplicate-step":
-			lay.Steps = append(lay.Steps, lay.Steps[0])
+			if len(lay.Steps) > 0 {
+				lay.Steps = append(lay.Steps, lay.Steps[0])
+			}
 		case "steps-null":
 			lay.Steps = nil
 			s0 = &hx.MStep{}
